@@ -48,6 +48,31 @@ def _snapshot(g, n, scale):
         iv = g.get_interval(co)
         if D.exact_int(iv[0], scale) != slo[-1] or D.exact_int(iv[1], scale) != sup[-1]:
             slo[-1] = slo[-1] + 999983  # make the disagreement visible to the scalar/bulk clause
+    # the list forms of every bulk getter must agree with the full arrays (random subset, random order, with a repetition)
+    import random as _r
+    rr = _r.Random(sum(k) * 31 + n)
+    sub = [rr.randrange(2 ** n) for _ in range(rr.randint(1, 2 ** n))]
+    cl = [Coalition(c) for c in sub]
+    try:
+        ok = (D.exact_arr(g.get_lower_bounds(cl), scale) == [lo[c] for c in sub]
+              and D.exact_arr(g.get_upper_bounds(iter(cl)), scale) == [up[c] for c in sub]
+              and [int(b) for b in g.are_values_known(cl)] == [k[c] for c in sub]
+              and D.exact_arr(np.asarray(g.get_intervals(cl))[:, 0], scale) == [lo[c] for c in sub]
+              and D.exact_arr(np.asarray(g.get_intervals(cl))[:, 1], scale) == [up[c] for c in sub])
+        kvl = g.get_known_values(cl)
+        ok = ok and all((math.isnan(float(x)) and not k[c]) or (k[c] and D.exact_int(x, scale) == lo[c]) for x, c in zip(kvl, sub))
+        if all(k[c] for c in sub):
+            ok = ok and D.exact_arr(g.get_values(cl), scale) == [lo[c] for c in sub]
+        else:
+            try:
+                g.get_values(cl)
+                ok = False                      # a value of an unknown coalition was returned
+            except ValueError:
+                pass
+    except D.DriverError:
+        ok = False
+    if not ok:
+        slo[0] = slo[0] + 999983                # reported through the scalar/bulk agreement clause
     kv = g.get_known_values()
     gkvs_ok = [0 if math.isnan(float(x)) else 1 for x in kv]
     gkvs = [0 if math.isnan(float(x)) else D.exact_int(x, scale) for x in kv]
